@@ -12,7 +12,7 @@ EXTRA = {
  "C12": " Also: every failure in the parse chain (decoder, conversions, file read) is returned, so a file that fails to parse can never be registered.",
  "C13": " Also: the channel the burst is addressed to (used unmasked) is within 0..15: every store to Device.channel preserves it and the parser establishes defaults.channel in 1..16.",
  "C15": " Also: a relay that parks a received message in a variable and writes it from a later select iteration must have its receive case gated.",
- "C17": " R17.1 is decided on the paths of one iteration of the MIDI-input loop under representative (type, velocity) assumptions, and the map written must be re-read from the Device field inside the critical section (Panic replaces it).",
+ "C17": " R17.1 is decided on the paths of one iteration of the MIDI-input loop under representative (type, velocity) assumptions, and the map written must be re-read from the Device field inside the critical section (Panic replaces it). R17.7 decides the layer precedence of the painted frame (unavailable < pitch-class < channel colour < external(current channel); pitch-class < active; all before UpdateLEDs) from the order of the classified LED write sites in the refresh loop body.",
  "C18": " Also: every file of the shipped hidi-config tree is matched by a //go:embed pattern of the template (go/packages EmbedFiles vs the source tree).",
  "C19": " The consumer is decided on paths: every path that takes the change-notification case cancels the per-cycle context before waiting again or returning.",
  "C20": " Also: nothing reachable from grouping/classification reads package-level state that the program modifies (caches, counters).",
